@@ -77,6 +77,7 @@ fn main() {
                 evidence_path: flag("--evidence").map(PathBuf::from),
                 max_runs: flag("--max-runs").and_then(|s| s.parse().ok()),
                 wall_cap: Duration::from_secs(wall_cap),
+                keep_going: args.iter().any(|a| a == "--keep-going"),
             });
             std::process::exit(code);
         }
@@ -113,6 +114,28 @@ fn main() {
             // lines that pass the invariant filter (corpus curation tool)
             let code = selftest::scan(&args[2..]);
             std::process::exit(code);
+        }
+        "curate-manifold-covers" => {
+            // corpus curation: torsion-free covers (closed manifolds with finite
+            // fundamental group) of finite-group symbols, via cyclic subgroups
+            let code = selftest::curate_manifold_covers(&args[2..]);
+            std::process::exit(code);
+        }
+        "run-specs" => {
+            // experiment tool: execute the specs of a JSONL file, write records as JSONL
+            let text = std::fs::read_to_string(&args[2]).expect("read specs");
+            let specs: Vec<spec::Spec> = text.lines().filter(|l| !l.trim().is_empty()).map(|l| spec::Spec::from_json(&serde_json::from_str(l).expect("json")).expect("spec")).collect();
+            let cfg = pool::PoolConfig { workers: 16, chunk: 4, run_budget: Duration::from_secs(60), deadline: None, thorough: args.iter().any(|a| a == "--thorough") };
+            let recs = pool::run_collect(&specs, &cfg);
+            let mut out = String::new();
+            for r in recs.iter() {
+                match r {
+                    Some(r) => out.push_str(&r.to_json().to_string()),
+                    None => out.push_str("null"),
+                }
+                out.push('\n');
+            }
+            std::fs::write(&args[3], out).expect("write");
         }
         "seam-selftest" => match entropy::selftest() {
             Ok(()) => println!("seam R ok: interposed getrandom controls RandomState"),
